@@ -212,12 +212,12 @@ def run(chk):
     chk.ob("C20.R3", where, "S-not-mutated", not muts, "the set S of a node is never mutated or rebound (siblings see the same S)", node=fn,
            mutations=muts)
     # rendering
-    tl = chk.fn(VIS, "treeListToTuple")
+    tl = chk.fn(VIS, "treeListToTuple", canonical=True)
     ok = False
     for s in walk_local(tl):
         if isinstance(s, ast.If):
             got = Tx().cond(s.test)
-            nd = next((norm(a0.targets[0]) for a0 in ast.walk(tl) if isinstance(a0, ast.Assign) and norm(a0.value) == f"{tl.args.args[0].arg}[0]"), "node")
+            nd = next((norm(a0.targets[0]) for a0 in ast.walk(tl) if isinstance(a0, ast.Assign) and norm(a0.value) == f"{tl.args.args[0].arg}[0]"), f"{tl.args.args[0].arg}[0]")  # the leaf object, named or not
             want = spec.cond_term(f"not ({nd}.NEBTagList or {nd}.IRVTagList)")
             if aud.cond_equiv(got, want)[0]:
                 txt = [x.value for x in ast.walk(ast.Module(body=s.body, type_ignores=[])) if isinstance(x, ast.Constant) and isinstance(x.value, str)]
